@@ -2,13 +2,14 @@
 (* Generation configuration of AppImage: prints every complete file        *)
 (* (kind "layout") and every complete signing session (kind "session").     *)
 EXTENDS MC_AppImage, Json
+ASSUME PrintT("F " \o ToJson(Forms))     \* once: what the form indices in the plans stand for
 EmitB == /\ ImageTerminal => PrintT("B " \o ToJson([kind |-> "layout", areas |-> SetToSeq(img),
                                                       file |-> file, size |-> size,
                                                       ulen |-> UnitLens[size]]))
          /\ SignTerminal  => PrintT("B " \o ToJson([kind |-> "session", plan |-> plan,
                                                       contents |-> Contents, size |-> size,
-                                                      ulen |-> UnitLens[size]]))
+                                                      ulen |-> UnitLens[size], dirs |-> setup.dirs]))
          /\ AuthTerminal  => PrintT("B " \o ToJson([kind |-> "auth", pre |-> apre, plan |-> aplan,
                                                       contents |-> Contents, size |-> size,
-                                                      ulen |-> UnitLens[size]]))
+                                                      ulen |-> UnitLens[size], dirs |-> setup.dirs]))
 =============================================================================
